@@ -147,12 +147,20 @@ class Ctx:
 
 
 def load_findings():
-    path = os.path.join(VERIF, "known_findings.json")
-    try:
-        data = json.load(open(path))
-    except FileNotFoundError:
-        return {}
-    return {f["id"]: f for f in data.get("findings", [])}
+    """known_findings.json plus per-property fragments known_findings.d/Cnn.json (same format); read-only at run time"""
+    out = {}
+    paths = [os.path.join(VERIF, "known_findings.json")]
+    d = os.path.join(VERIF, "known_findings.d")
+    if os.path.isdir(d):
+        paths += sorted(os.path.join(d, f) for f in os.listdir(d) if f.endswith(".json"))
+    for path in paths:
+        try:
+            data = json.load(open(path))
+        except FileNotFoundError:
+            continue
+        for f in data.get("findings", []):
+            out[f["id"]] = f
+    return out
 
 
 # ---------------------------------------------------------------- Lean build / audit
@@ -307,6 +315,9 @@ def leancheck(ctx, mod):
 
 def main(argv):
     import argparse
+    if argv == ["--gen-main"]:
+        gen_main()
+        return 0
     ap = argparse.ArgumentParser()
     ap.add_argument("pid")
     ap.add_argument("--tier", default=os.environ.get("VERIF_TIER", "quick"), choices=["quick", "thorough"])
